@@ -171,15 +171,21 @@ func (e *Env) SetVar(name string, p value.Primary) {
 // Snapshot of a directory: name -> content.
 func DirSnapshot(dir string) map[string]string {
 	m := map[string]string{}
-	ents, _ := os.ReadDir(dir)
-	for _, en := range ents {
-		if en.IsDir() {
-			m[en.Name()+"/"] = ""
-			continue
+	var walk func(rel string)
+	walk = func(rel string) {
+		ents, _ := os.ReadDir(filepath.Join(dir, rel))
+		for _, en := range ents {
+			name := filepath.Join(rel, en.Name())
+			if en.IsDir() {
+				m[name+"/"] = ""
+				walk(name) // files of a sub-directory appear as "sub/name"
+				continue
+			}
+			b, _ := os.ReadFile(filepath.Join(dir, name))
+			m[name] = string(b)
 		}
-		b, _ := os.ReadFile(filepath.Join(dir, en.Name()))
-		m[en.Name()] = string(b)
 	}
+	walk("")
 	return m
 }
 
@@ -198,6 +204,9 @@ func SnapshotKey(m map[string]string) string {
 
 func WriteFiles(dir string, files map[string]string) {
 	for n, c := range files {
+		if strings.Contains(n, "/") {
+			os.MkdirAll(filepath.Dir(filepath.Join(dir, n)), 0755)
+		}
 		if err := os.WriteFile(filepath.Join(dir, n), []byte(c), 0644); err != nil {
 			panic(err)
 		}
